@@ -152,9 +152,23 @@ def run(ck, prog, ctx):
     # ---------------- TABLE: big-endian pair
     fb = prog.body(FROM_BYTES)
     tb = prog.body(TO_BE)
+    def byte_order_of(root_body):
+        """endian conversions of the function and of the crate helpers it reaches; ('hand', body) when there is none but a shift-and-or loop"""
+        rb_ = [prog.bodies[x] for x in prog.reachable_bodies([root_body.id]) if x in prog.bodies and not prog.bodies[x].test and prog.bodies[x].file and prog.bodies[x].file.startswith("src/term/hpotermid")]
+        fams_ = [f for (b, t, f) in endian_sites(prog, rb_ or [root_body])]
+        if fams_:
+            return fams_, None
+        for x in rb_:
+            for fb_ in prog.family(x):
+                if any(st.k == "assign" and st.rv["k"] == "bin" and st.rv["op"] in ("Shl", "Shr", "ShlUnchecked", "ShrUnchecked") for _, st in fb_.stmts()):
+                    return [], x
+        return [], None
     if ck.anchor("TABLE", "impl From<[u8;4]> for HpoTermId", fb):
-        fams = [f for (b, t, f) in endian_sites(prog, [fb])]
-        ck.ob("TABLE", "bytes/from", fams == ["be"], "From<[u8;4]> converts with %s (expected exactly one big-endian conversion)" % (fams or "no endian conversion"), where=fb.where())
+        fams, hand = byte_order_of(fb)
+        if not fams and hand is not None:
+            ck.undecided("TABLE", "bytes/from", "From<[u8;4]> assembles the number with hand-written shifts (in %s): its byte order is not decided by this rule" % hand.short, where=fb.where())
+        else:
+            ck.ob("TABLE", "bytes/from", fams == ["be"], "From<[u8;4]> converts with %s (expected exactly one big-endian conversion)" % (fams or "no endian conversion"), where=fb.where())
     if ck.anchor("TABLE", "AnnotationId::to_be_bytes", tb):
         fams = [f for (b, t, f) in endian_sites(prog, [tb])]
         ck.ob("TABLE", "bytes/to", fams == ["be"], "AnnotationId::to_be_bytes converts with %s (expected exactly one big-endian conversion)" % (fams or "no endian conversion"), where=tb.where())
@@ -196,6 +210,19 @@ def run(ck, prog, ctx):
             ck.ob("ROLE", "parse/input", from_param and not bad and radix_ok,
                   "the number is parsed from %s%s" % ("a sub-slice of the input text" if from_param and not bad else "the input after `%s`: text that is not 'HP:' + a decimal number (e.g. with trailing white space) is accepted" % (bad[0] if bad else "?"), "" if radix_ok else " with a radix other than 10"),
                   where=tf.where(t.line))
+    # a term id is compared with a TEXT by parsing the text: `HpoTermId == "HP:123"` holds for the id 123 (the impls behind `==` with str / &str and
+    # From<String> go through the number parser; comparing renderings instead makes every non-canonical spelling unequal to its own id)
+    is_parse = lambda c: c.method in ("parse", "from_str", "from_str_radix") and "str" in (c.name or "")
+    for tid in ("<term::hpotermid::HpoTermId as std::cmp::PartialEq<str>>::eq", "<term::hpotermid::HpoTermId as std::cmp::PartialEq<&str>>::eq", "<term::hpotermid::HpoTermId as std::convert::From<std::string::String>>::from"):
+        eb = prog.body(tid)
+        if eb is None:
+            continue
+        reach = [prog.bodies[x] for x in prog.reachable_bodies([eb.id]) if x in prog.bodies and not prog.bodies[x].test]
+        parses_ = any(is_parse(t_.callee) for rb_ in reach for _, t_ in rb_.calls())
+        renders = [t_ for rb_ in reach for _, t_ in rb_.calls() if t_.callee.method in ("to_string", "format", "fmt", "write_fmt") and rb_.id == eb.id]
+        nm = re.sub(r"^<term::hpotermid::HpoTermId as (std::cmp::|std::convert::)?", "", tid).replace(">::", "::")
+        ck.ob("ROLE", "text-entry/" + nm, parses_, "%s %s" % (nm, "reads the text through the number parser" if parses_ else "never parses the text%s: a text that spells the id differently from the canonical rendering ('HP:123') is no longer that id" % (" (it compares with the rendering, `%s`)" % renders[0].callee.method if renders else "")), where=eb.where())
+
     # the integer conversions either keep the value or fail: no silent truncation of ids above u32::MAX
     ck.rule("GUARD", "integer conversions into HpoTermId are exact or fail (DESIGN 3.5)")
     from props.shared import check_exact_conversion
